@@ -289,6 +289,11 @@ impl Copy for HllType {}
 spec fn tgt_of(h: HllType) -> u8 { match h { HllType::Hll4 => 0, HllType::Hll6 => 1, HllType::Hll8 => 2 } }
 
 fn encode_mode_byte(cur_mode: u8, tgt_type: u8) -> (r: u8) ensures r == (cur_mode & 0x3) | ((tgt_type & 0x3) << 2) {
+    proof {
+    let a = cur_mode ;
+    let b = tgt_type ;
+    assert ( a & 0x3 == a % 4 && b & 0x3 == b % 4 && ( b & 0x3 ) << 2 == ( b % 4 ) * 4 && ( b % 4 ) * 4 <= 12 && ( a & 0x3 ) | ( ( b & 0x3 ) << 2 ) == ( ( b & 0x3 ) << 2 ) | ( a & 0x3 ) ) by ( bit_vector ) ;
+    }
     (cur_mode & 0x3) | ((tgt_type & 0x3) << 2)
 }
 
